@@ -297,3 +297,15 @@ PROPS["C30"] = dict(
     level_text="Sampled names, all entry points; each written file is judged by an independent parser.",
     level_note="Trusted base: pyref/pdf.py and pyref/validate.py. Pattern names and form-field export states are not driven (patterns have no public drawing call that takes a user name).",
 )
+
+PROPS["C11"] = dict(
+    title="Text extraction conserves every drawn character",
+    level="exploration",
+    technique="reference-model monitor over real extractions: pages are written directly as PDF syntax (own minimal file builder, not the library's writer) from a generator that records every shown string; TextExtractor::extract_from_page runs under the default options, every single-option flip, all options on, and sampled combinations with sampled thresholds; the monitor compares the multiset of non-white-space characters with the model (ActualText replacement applied, Artifact content dropped unless include_artifacts) and repeats extractions to check determinism",
+    stages=[rust()],
+    rule="pages of 1-9 text blocks over Tj TJ ' \" Td TD Tm T* Tc Tw Tz TL Ts Tr cm q/Q Do BT/ET, BMC/BDC/EMC (Artifact, Span with ActualText as literal and UTF-16BE hex, MCID), literal strings with octal escapes and hex strings, one or two content streams; fonts: Type1 WinAnsi, Type1 MacRoman, Type1 with /Differences, Type0 Identity-H with generated ToUnicode (bfchar incl. astral and multi-character values, bfrange); geometry: plain, Tm scaling, cm scaling/translation, 90 degree rotation, mirrored; form XObjects nested to depth 2 whose /Resources bind the same font names to different fonts; x 10 fixed + 3 sampled option sets per page. Non-trivial: >= 3 distinct text-positioning/showing operators, or a form XObject, or a Type0 font; distinct by content stream",
+    assumptions=["white space is not judged (the extractor synthesises and collapses it)", "the alphabet has no hyphen, no control characters, no combining marks and no compatibility ligatures", "text render mode does not hide text from extraction", "all text lies inside the MediaBox; max_extracted_bytes is None"],
+    floors={"quick": {"evaluations": 180000, "distinct": 10000, "counters": {"extractions_judged": 180000, "shows.TJ": 20000, "shows.'": 8000, "shows.\"": 8000, "determinism_reruns": 30000}}, "thorough": {"evaluations": 8000000, "distinct": 400000}},
+    level_text="Sampled pages; exact multiset oracle per extraction.",
+    level_note="Trusted base: the page generator and its model in harness/src/wl/c11.rs and gen/rawpdf.rs. Reading-order quality and white space are out of scope.",
+)
